@@ -100,8 +100,8 @@ def encPacket (layout : Nat) (o : Opts) (payloadKey headerHash : Bytes) (macKeys
   let auths : Val := .arr (macKeys.map (fun k => .bin ((P.hmac k h).take 32)))
   encode (.arr ((if layout = 1 then [auths, .bin ct] else [.bool final, auths, .bin ct]) ++ o.packetExtras))
 
-def encode (layout : Nat) (o : Opts) (sender : Option Bytes) (rs : List Encrypt.Recipient)
-    (eph payloadKey pt : Bytes) : Bytes :=
+def encodePlan (layout : Nat) (o : Opts) (sender : Option Bytes) (rs : List Encrypt.Recipient)
+    (eph payloadKey : Bytes) (pl : List (Bytes × Bool)) : Bytes :=
   let senderSec := sender.getD eph
   let hdr : Val := .arr ([.str o.formatName, versionVal layout o, .int (o.typ.getD sModeEncryption),
       .bin (P.boxPub eph), .bin (P.sbSeal payloadKey sNonceSenderKey (P.boxPub senderSec)),
@@ -109,7 +109,11 @@ def encode (layout : Nat) (o : Opts) (sender : Option Bytes) (rs : List Encrypt.
   let hb := Msgpack.encode hdr
   let hh := P.hash hb
   let mks := rs.zipIdx.map (fun (r, i) => encMacKey P layout senderSec eph r.pub hh i)
-  encBin hb ++ ((plan layout o pt).zipIdx.flatMap (fun ((c, f), i) => encPacket P layout o payloadKey hh mks i c f))
+  encBin hb ++ (pl.zipIdx.flatMap (fun ((c, f), i) => encPacket P layout o payloadKey hh mks i c f))
+
+def encode (layout : Nat) (o : Opts) (sender : Option Bytes) (rs : List Encrypt.Recipient)
+    (eph payloadKey pt : Bytes) : Bytes :=
+  encodePlan P layout o sender rs eph payloadKey (plan layout o pt)
 
 /-! ### attached / detached signatures (specs/saltpack_signing_v{1,2}.md) -/
 
@@ -122,10 +126,13 @@ def attPacket (layout : Nat) (o : Opts) (signer headerHash : Bytes) (i : Nat) (c
   let sig := P.sign signer (sSigAttached ++ hashed)
   Msgpack.encode (.arr ((if layout = 1 then [.bin sig, .bin chunk] else [.bool final, .bin sig, .bin chunk]) ++ o.packetExtras))
 
-def attached (layout : Nat) (o : Opts) (signer nonce msg : Bytes) : Bytes :=
+def attachedPlan (layout : Nat) (o : Opts) (signer nonce : Bytes) (pl : List (Bytes × Bool)) : Bytes :=
   let hb := sigHeaderBytes layout o sModeAttached (P.sigPub signer) nonce
   let hh := P.hash hb
-  encBin hb ++ ((plan layout o msg).zipIdx.flatMap (fun ((c, f), i) => attPacket P layout o signer hh i c f))
+  encBin hb ++ (pl.zipIdx.flatMap (fun ((c, f), i) => attPacket P layout o signer hh i c f))
+
+def attached (layout : Nat) (o : Opts) (signer nonce msg : Bytes) : Bytes :=
+  attachedPlan P layout o signer nonce (plan layout o msg)
 
 def detached (layout : Nat) (o : Opts) (signer nonce msg : Bytes) : Bytes :=
   let hb := sigHeaderBytes layout o sModeDetached (P.sigPub signer) nonce
@@ -152,13 +159,20 @@ def scPacket (o : Opts) (sender : Option Bytes) (payloadKey headerHash : Bytes) 
     | some s => P.sign s (sSigEncrypted ++ headerHash ++ nonce ++ sFinal final ++ P.hash chunk)
   Msgpack.encode (.arr ([.bin (P.sbSeal payloadKey nonce (sig ++ chunk)), .bool final] ++ o.packetExtras))
 
-def signcrypt (o : Opts) (sender : Option Bytes) (rs : List Signcrypt.Recipient) (eph payloadKey pt : Bytes) : Bytes :=
+def signcryptPlan (o : Opts) (sender : Option Bytes) (rs : List Signcrypt.Recipient) (eph payloadKey : Bytes)
+    (pl : List (Bytes × Bool)) : Bytes :=
   let hdr : Val := .arr ([.str o.formatName, versionVal 2 o, .int (o.typ.getD sModeSigncryption), .bin (P.boxPub eph),
       .bin (P.sbSeal payloadKey sNonceSenderKey (match sender with | none => zeros 32 | some s => P.sigPub s)),
       .arr (rs.zipIdx.map (fun (r, i) => scRecipientVal P o eph payloadKey i r))] ++ o.headerExtras)
   let hb := Msgpack.encode hdr
   let hh := P.hash hb
-  encBin hb ++ ((plan 2 o pt).zipIdx.flatMap (fun ((c, f), i) => scPacket P o sender payloadKey hh i c f))
+  encBin hb ++ (pl.zipIdx.flatMap (fun ((c, f), i) => scPacket P o sender payloadKey hh i c f))
+
+def signcrypt (o : Opts) (sender : Option Bytes) (rs : List Signcrypt.Recipient) (eph payloadKey pt : Bytes) : Bytes :=
+  signcryptPlan P o sender rs eph payloadKey (plan 2 o pt)
+
+/-- the nonce length the signing specifications prescribe for the header -/
+def sSigNonceLen : Nat := 32
 
 end
 end Saltpack.Spec
